@@ -201,7 +201,8 @@ EXPORT errno_t _wcsrtombs_s_chk(size_t *restrict retvalp, char *restrict dest,
         return RCNEGATE(ESOVRLP);
     }
 
-    l = *retvalp = wcsrtombs(dest, srcp, len, ps);
+    /* the C library may store up to len bytes: never more than dmax */
+    l = *retvalp = wcsrtombs(dest, srcp, (dest && len > dmax) ? dmax : len, ps);
 
     if (likely(l > 0 && l < dmax)) {
 #ifdef SAFECLIB_STR_NULL_SLACK
